@@ -1,0 +1,107 @@
+//! Verification shim (feature `verif`): lets a test harness install a per-thread
+//! backend that receives the tasks and timers this crate would hand to tokio.
+//! Without an installed backend everything falls through to the real runtime.
+use std::{
+    cell::RefCell,
+    future::Future,
+    pin::Pin,
+    rc::Rc,
+    task::{Context, Poll},
+    time::Duration,
+};
+
+pub type BoxFut = Pin<Box<dyn Future<Output = ()> + Send + 'static>>;
+
+pub trait Backend {
+    fn spawn(&self, fut: BoxFut);
+    fn sleep(&self, d: Duration) -> BoxFut;
+}
+
+thread_local! {
+    static BACKEND: RefCell<Option<Rc<dyn Backend>>> = const { RefCell::new(None) };
+}
+
+/// Install (or remove) the backend of the current thread; returns the previous one.
+pub fn install(b: Option<Rc<dyn Backend>>) -> Option<Rc<dyn Backend>> {
+    BACKEND.with(|c| std::mem::replace(&mut *c.borrow_mut(), b))
+}
+
+fn backend() -> Option<Rc<dyn Backend>> {
+    BACKEND.with(|c| c.borrow().clone())
+}
+
+pub mod tokio_shim {
+    use super::*;
+
+    pub mod task {
+        use super::*;
+
+        #[derive(Debug, Clone, Copy)]
+        pub struct JoinError;
+
+        pub enum JoinHandle<T> {
+            Real(::tokio::task::JoinHandle<T>),
+            Virt(futures::channel::oneshot::Receiver<T>),
+        }
+
+        impl<T> Future for JoinHandle<T> {
+            type Output = Result<T, JoinError>;
+            fn poll(self: Pin<&mut Self>, cx: &mut Context<'_>) -> Poll<Self::Output> {
+                match self.get_mut() {
+                    JoinHandle::Real(h) => Pin::new(h).poll(cx).map(|r| r.map_err(|_| JoinError)),
+                    JoinHandle::Virt(r) => Pin::new(r).poll(cx).map(|r| r.map_err(|_| JoinError)),
+                }
+            }
+        }
+    }
+
+    pub fn spawn<F>(future: F) -> task::JoinHandle<F::Output>
+    where
+        F: Future + Send + 'static,
+        F::Output: Send + 'static,
+    {
+        match backend() {
+            Some(b) => {
+                let (tx, rx) = futures::channel::oneshot::channel();
+                b.spawn(Box::pin(async move {
+                    let _ = tx.send(future.await);
+                }));
+                task::JoinHandle::Virt(rx)
+            }
+            None => task::JoinHandle::Real(::tokio::spawn(future)),
+        }
+    }
+
+    pub mod time {
+        use super::*;
+
+        pub fn sleep(d: Duration) -> BoxFut {
+            match backend() {
+                Some(b) => b.sleep(d),
+                None => Box::pin(::tokio::time::sleep(d)),
+            }
+        }
+    }
+}
+
+pub mod timer_shim {
+    use super::*;
+
+    pub struct Delay(BoxFut);
+
+    impl Delay {
+        pub fn new(d: Duration) -> Self {
+            match backend() {
+                Some(b) => Delay(b.sleep(d)),
+                None => Delay(Box::pin(async move { ::futures_timer::Delay::new(d).await })),
+            }
+        }
+    }
+
+    impl Future for Delay {
+        type Output = ();
+        fn poll(mut self: Pin<&mut Self>, cx: &mut Context<'_>) -> Poll<()> {
+            self.0.as_mut().poll(cx)
+        }
+    }
+}
